@@ -211,6 +211,9 @@ class TensorDomain(SpecInterp):
         if name == "torch.nn.Softmax":
             dim = kw.get("dim", args[0] if args else None)
             return Native(lambda x: self.t_softmax(self.lift(x), dim))
+        if name in ("torch.softmax", "torch.nn.functional.softmax", "torch.log_softmax", "torch.nn.functional.log_softmax") and args:
+            dim = kw.get("dim", args[1] if len(args) > 1 else None)
+            return self.t_softmax(self.lift(args[0]), dim)
         if name.startswith("torch."):
             short = name[len("torch."):]
             if short in UNARY_TORCH:
@@ -392,6 +395,8 @@ class TensorDomain(SpecInterp):
         if name in REDUCE_METHODS:
             dim, but = self._dims(kw, args)
             return self.t_reduce(name, x, dim, but, kw)
+        if name in ("softmax", "log_softmax"):
+            return self.t_softmax(x, kw.get("dim", args[0] if args else None))
         if name == "wsum":
             dim, but = self._dims(kw, args)
             return (self.t_reduce("wsum_value", x, dim, but, kw), self.t_reduce("wsum_weight", x, dim, but, kw))
